@@ -9,6 +9,7 @@
    create_proof sends nothing except the Get of its internal read of a block that is not held.
    Partial by nature: that every subscriber receives the same sequence is a property of async_broadcast
    (capacity 32), covered by tools/c13.py with 1-3 subscribers and < 32 undrained events. *)
+From HC Require Import Broadcast BroadcastLib BroadcastRefine BroadcastFacts BroadcastTrace.
 From HC Require FaultReplicaEx.
 From HC Require Import FaultReplica.
 From HC Require AnyProofCorEx.
@@ -314,6 +315,78 @@ Theorem C13_beyond_end_same_events :
             {| w_disk := d; w_journal := j; w_events := ev |} = (c', w', Ok x)).
 Proof. exact beyond_end_same_events. Qed.
 
+Theorem C13_fanout_model_refines_abstract_reading :
+  forall (A : Type) (cap : N) (ops : list (bop A)),
+         0 < cap -> run_bc cap ops = fst (spec_steps (spec_new cap) ops).
+Proof. exact run_refines. Qed.
+
+Theorem C13_fanout_no_panic :
+  forall (A : Type) (cap : N) (ops : list (bop A)), 0 < cap -> ~ In BoPanic (run_bc cap ops).
+Proof. exact run_no_panic. Qed.
+
+Theorem C13_fanout_exact_without_overflow :
+  forall (A : Type) (s : spec A) (k : nat) (r : srcv A),
+         ginv s ->
+         nth_error (sp_rcv s) k = Some r ->
+         no_overflow (sr_log r) -> received r ++ pending s r = sent_since s r.
+Proof. exact fanout_exact. Qed.
+
+Theorem C13_fanout_trace :
+  forall (A : Type) (cap : N) (ops1 ops2 : list (bop A)),
+         0 < cap ->
+         let c1 := snd (bsys_steps (bsys_new cap) ops1) in
+         let k := N.of_nat (Datatypes.length (bs_rcv c1)) in
+         let tr2 := combine ops2 (fst (bsys_steps (fst (bsys_step c1 BNew)) ops2)) in
+         snd (bsys_step c1 BNew) = BoNew k /\
+         (exists got rest : list A,
+            tr_sent tr2 = got ++ rest /\
+            Forall2 fits (shape (tr_log k tr2)) got /\
+            (no_overflow (tr_log k tr2) -> msgs_of (tr_log k tr2) = got)).
+Proof. exact fanout_trace. Qed.
+
+Theorem C13_fanout_lagging_subscriber :
+  forall (A : Type) (cap : N) (l : list A) (n : N),
+         0 < cap ->
+         0 < n ->
+         N.of_nat (Datatypes.length l) = cap + n ->
+         exists obs_s : list (bobs A),
+           run_bc cap (BNew :: map BSend l ++ repeat (BRecv 0) (S (N.to_nat cap)) ++ [BRecv 0]) =
+           BoNew 0 :: obs_s ++ BoOverflowed n :: map BoMsg (skipn (N.to_nat n) l) ++ [BoEmpty] /\
+           Forall (is_sent A) obs_s.
+Proof. exact lagging_subscriber. Qed.
+
+Theorem C13_fanout_send_without_subscriber :
+  forall (A : Type) (cap : N) (ops1 : list (bop A)) (m : A) (ops2 : list (bop A)),
+         0 < cap ->
+         nlive (bs_rcv (snd (bsys_steps (bsys_new cap) ops1))) = 0 ->
+         run_bc cap (ops1 ++ BSend m :: ops2) =
+         fst (bsys_steps (bsys_new cap) ops1) ++
+         BoInactive :: fst (bsys_steps (snd (bsys_steps (bsys_new cap) ops1)) ops2) /\
+         run_bc cap (ops1 ++ ops2) =
+         fst (bsys_steps (bsys_new cap) ops1) ++ fst (bsys_steps (snd (bsys_steps (bsys_new cap) ops1)) ops2).
+Proof. exact send_without_subscriber_run. Qed.
+
+Theorem C13_fanout_drained_subscriber_sees_all :
+  forall (A : Type) (cap : N) (dr : nat) (chunks : list (list A)),
+         0 < cap ->
+         Forall (fun ch : list A => N.of_nat (Datatypes.length ch) <= cap /\ (Datatypes.length ch <= dr)%nat)
+           chunks ->
+         exists obs : list (bobs A),
+           run_bc cap (BNew :: feed 0 dr chunks) = BoNew 0 :: obs /\
+           msgs_of obs = concat chunks /\ no_overflow obs.
+Proof. exact drained_subscriber_sees_all. Qed.
+
+Theorem C13_fanout_core_history :
+  forall (cr : crypto) (ops : list op) (c : core) (d : disk) (j : list sop) 
+           (c' : core) (w' : world) (oks : list bool) (chunks : list (list event)),
+         run_ops cr ops c {| w_disk := d; w_journal := j; w_events := [] |} = (c', w', oks) ->
+         concat chunks = rev (w_events w') ->
+         Forall (fun ch : list event => (Datatypes.length ch <= 32)%nat) chunks ->
+         exists obs : list (bobs event),
+           run_bc 32 (BNew :: feed 0 32 chunks) = BoNew 0 :: obs /\
+           msgs_of obs = rev (w_events w') /\ no_overflow obs.
+Proof. exact core_history_fanout. Qed.
+
 Print Assumptions C13_append_events.
 Print Assumptions C13_apply_events.
 Print Assumptions C13_get_events.
@@ -346,3 +419,11 @@ Print Assumptions AnyProofCorEx.sc_any_history_applies.
 Print Assumptions C13_failed_call_emits_nothing.
 Print Assumptions C13_beyond_end_same_events.
 Print Assumptions FaultReplicaEx.toy_append_fault_events.
+Print Assumptions C13_fanout_model_refines_abstract_reading.
+Print Assumptions C13_fanout_no_panic.
+Print Assumptions C13_fanout_exact_without_overflow.
+Print Assumptions C13_fanout_trace.
+Print Assumptions C13_fanout_lagging_subscriber.
+Print Assumptions C13_fanout_send_without_subscriber.
+Print Assumptions C13_fanout_drained_subscriber_sees_all.
+Print Assumptions C13_fanout_core_history.
